@@ -59,8 +59,8 @@ Theorem C06_primitive_generic_agree : forall (T : Type) (K : kops T) (p : profil
   (forall a, k_eqb K a a = true) ->
   (forall u v, k_eqb K u v = true -> k_ltb K v u = false) ->
   (forall va vb md sa sb sx,
-     k_ltb K va (k_max K) = true -> k_ltb K vb (k_max K) = true -> k_ltb K md (k_max K) = true ->
-     k_ltb K (k_upd K va vb md sa sb sx) (k_max K) = true) ->
+     k_ltb K va (k_inf K) = true -> k_ltb K vb (k_inf K) = true -> k_ltb K md (k_inf K) = true ->
+     k_ltb K (k_upd K va vb md sa sb sx) (k_inf K) = true) ->
   (below_kind_of meth = BelowRename ->
      forall va vb md sa sb sx, (uses_sizes_ab meth = true -> 0 < sa /\ 0 < sb) ->
      k_ltb K va md = false -> k_ltb K vb md = false ->
@@ -70,7 +70,7 @@ Theorem C06_primitive_generic_agree : forall (T : Type) (K : kops T) (p : profil
   (uses_sizes_ab meth = false ->
      forall va vb md sa sb sa' sb' sx, k_upd K va vb md sa sb sx = k_upd K va vb md sa' sb' sx) ->
   forall s1 d1 s2 d2 m n sp dp mp sg dg mg M0,
-  Forall (fun v => k_ltb K v (k_max K) = true) (square_all K m) ->
+  Forall (fun v => k_ltb K v (k_inf K) = true) (square_all K m) ->
   prologue p (square_all K m) n = Ok M0 ->
   primitive_with K p meth s1 d1 m n = Ok (sp, dp, mp) ->
   generic_with K p meth s2 d2 m n = Ok (sg, dg, mg) ->
@@ -87,7 +87,7 @@ Theorem C06_selection_primitive_generic_agree : forall (T : Type) (F : fops T) (
   (forall u v, f_eqb F u v = true -> f_ltb F v u = false) ->
   forall meth s1 d1 s2 d2 (m : list T) (n : N) sp dp mp sg dg mg M0,
   meth = Single \/ meth = Complete ->
-  Forall (fun v => f_ltb F v (f_max F) = true) m ->
+  Forall (fun v => f_ltb F v (f_inf F) = true) m ->
   prologue p m n = Ok M0 ->
   primitive_with (kops_of F meth) p meth s1 d1 m n = Ok (sp, dp, mp) ->
   generic_with (kops_of F meth) p meth s2 d2 m n = Ok (sg, dg, mg) ->
@@ -247,7 +247,7 @@ Theorem C06_single_all_entry_points_same_cuts : forall (T : Type) (F : fops T) (
   run_with F p a Single s1 d1 m n = Ok (sr, dr, mr) ->
   run_with F p a' Single s2 d2 m n = Ok (sr', dr', mr') ->
   prologue p m n = Ok M0 -> 1 <= m_obs M0 ->
-  Forall (fun v => f_ltb F v (f_max F) = true) m -> Forall (fun v => f_ltb F v (f_inf F) = true) m ->
+  Forall (fun v => f_ltb F v (f_inf F) = true) m -> Forall (fun v => f_ltb F v (f_inf F) = true) m ->
   forall t : T, exists j j', cut_at (kops_of F Single) t j (heights dr) /\ cut_at (kops_of F Single) t j' (heights dr')
     /\ forall x y, x < m_obs M0 -> y < m_obs M0 ->
         (labi (m_obs M0) (d_steps dr') j' x = labi (m_obs M0) (d_steps dr') j' y
